@@ -580,12 +580,12 @@ Proof.
         split; [intros Hn; apply (so_none _ _ _ _ _ SO Hn)|intros c Hc; apply (so_some _ _ _ _ _ SO c Hc)].
       - cbn [rwriteable is_inl andb]. rewrite orb_false_r. reflexivity. }
   destruct SS as (SO & Hend).
-  assert (Hfin : forall wr lk, is_final_stream (mkR p1 wr lk) = is_final_stream r).
+  assert (Hfin : forall wr lk, is_final_stream (mkR p1 wr lk false) = is_final_stream r).
   { intros wr lk. apply is_final_stream_eq; cbn [rsp]; apply SO. }
   destruct (s_end s || (0 <? s_stream s)) eqn:Edone.
   { (* the parse reported stream data or the end of the stream *)
-    remember (if negb (rwriteable (mkR p1 (rwriteable r) (rlock r))) && is_final_stream (mkR p1 (rwriteable r) (rlock r))
-               then mkR p1 true (rlock r) else mkR p1 (rwriteable r) (rlock r)) as r2 eqn:Er2.
+    remember (if negb (rwriteable (mkR p1 (rwriteable r) (rlock r) (raborted r))) && is_final_stream (mkR p1 (rwriteable r) (rlock r) (raborted r))
+               then mkR p1 true (rlock r) (raborted r) else mkR p1 (rwriteable r) (rlock r) (raborted r)) as r2 eqn:Er2.
     assert (H2 : rsp r2 = p1 /\ rwriteable r2 = rwriteable r || is_final_stream r).
     { subst r2. cbn [rwriteable]. rewrite Hfin. destruct (rwriteable r), (is_final_stream r); cbn [negb andb orb rsp rwriteable]; split; reflexivity. }
     destruct H2 as [H2 H3]. injection E as <- <- <-. exists (s_dest s). split; [|split].
@@ -620,7 +620,7 @@ Proof.
   pose proof (so_inv _ _ _ _ _ SO) as [RI1 I1].
   destruct (compress_views p1 RI1) as (V1 & V2 & V3 & V4 & V5 & V6).
   pose proof (compress_abs p1 RI1) as CA.
-  set (r2 := mkR (compress p1) (rwriteable r) (rlock r)) in E.
+  set (r2 := mkR (compress p1) (rwriteable r) (rlock r) (raborted r)) in E.
   assert (Hinv2 : pinv (rsp r2)).
   { split; [exact V1|]. cbn [r2 rsp]. rewrite CA. apply compress_inv. exact I1. }
   destruct (poll_output (S f) r2 w) as [[po r3] w0] eqn:EPO.
@@ -1113,8 +1113,8 @@ Proof.
     destruct (sparse_at_term (rsp r1) (Some (N.pos pc)) (ac_inv _ _ _ _ _ _ A1) ltac:(intros _; exact Q2) Ht1)
       as (p2 & s & ES & I2 & A2 & S2 & E1 & E2 & E3 & E4).
     rewrite ES, E1 in E. cbn [orb] in E.
-    remember (if negb (rwriteable (mkR p2 (rwriteable r1) (rlock r1))) && is_final_stream (mkR p2 (rwriteable r1) (rlock r1))
-              then mkR p2 true (rlock r1) else mkR p2 (rwriteable r1) (rlock r1)) as r2 eqn:Er2.
+    remember (if negb (rwriteable (mkR p2 (rwriteable r1) (rlock r1) (raborted r1))) && is_final_stream (mkR p2 (rwriteable r1) (rlock r1) (raborted r1))
+              then mkR p2 true (rlock r1) (raborted r1) else mkR p2 (rwriteable r1) (rlock r1) (raborted r1)) as r2 eqn:Er2.
     assert (H2 : rsp r2 = p2) by (subst r2; destruct (_ && _); reflexivity).
     injection E as <- <- <-. rewrite H2, E2, E3.
     split; [exact Q1|]. split; [exact Hrs|]. split; [exact I2|]. split; [rewrite A2; exact Ht1|].
@@ -1157,7 +1157,7 @@ Proof.
 Qed.
 
 Lemma input_loop_err f dest new r w p' e s : sparse maxc (rsp r) new dest = StErr p' e s ->
-  input_loop maxc (S f) dest new r w = (PReady (inr (perr_kind e)), mkR p' (rwriteable r) (rlock r), w).
+  input_loop maxc (S f) dest new r w = (PReady (inr (perr_kind e)), mkR p' (rwriteable r) (rlock r) (raborted r), w).
 Proof. intros E. cbn [input_loop]. rewrite E. reflexivity. Qed.
 
 (* record_boundary treats AbortRequest as "a record boundary was reached, go on": the parser stands at the
@@ -1168,7 +1168,7 @@ Proof. intros (H1 & H2 & _). cbn [abs a_prem a_pad] in H1, H2. unfold is_record_
 Theorem boundary_loop_abort f new r w p' s :
   pinv (rsp r) -> bytes_ok new -> len new <= sinput_space (rsp r) ->
   sparse maxc (rsp r) new None = StErr p' EAbortRequest s ->
-  boundary_loop maxc (S f) new r w = Ok (None, mkR p' (rwriteable r) (rlock r)) w /\ err_at (abs p') EAbortRequest.
+  boundary_loop maxc (S f) new r w = Ok (None, mkR p' (rwriteable r) (rlock r) (raborted r)) w /\ err_at (abs p') EAbortRequest.
 Proof.
   intros Hinv Hnew Hfit E.
   pose proof (sparse_step (rsp r) new None Hinv Hnew Hfit ltac:(intros H; contradiction)) as SS. rewrite E in SS.
@@ -1293,7 +1293,7 @@ Theorem do_writeable_gate r w e r' w' :
      let last := last_opt (r_role (sreq (rsp r))) in
      exists p1, set_stream (rsp r) last = SetOk p1 /\
        stream (rsp r') = last /\ sreq (rsp r') = sreq (rsp r) /\ is_final_stream r' = true /\
-       acct [] (mkR p1 false (rlock r)) w [] r' w' /\
+       acct [] (mkR p1 false (rlock r) (raborted r)) w [] r' w' /\
        match e with
        | None => rwriteable r' = true \/
                  (rwriteable r' = false /\ stream (rsp r) = last /\ stream_buffer (rsp r) <> [] /\ r' = r /\ w' = w)
@@ -1309,7 +1309,7 @@ Proof.
   destruct (set_stream (rsp r) last) as [p1| |] eqn:ES; try discriminate E.
   exists p1. split; [reflexivity|].
   destruct (set_stream_step _ _ _ Hinv ES) as (I1 & Q1 & S1 & _ & _ & _ & _ & _ & SAME & DIFF).
-  set (r1 := mkR p1 false (rlock r)) in *.
+  set (r1 := mkR p1 false (rlock r) (raborted r)) in *.
   assert (Hfin1 : is_final_stream r1 = true).
   { unfold is_final_stream. cbn [r1 rsp]. rewrite Q1, S1. unfold last. rewrite last_is_final. reflexivity. }
   pose proof (await_input_reads (io_fuel w 0) None r1 w I1 Hrem) as AI.
@@ -1323,7 +1323,7 @@ Proof.
     + left. rewrite W. unfold poll_parses. cbn [r1 rsp rwriteable is_inl]. rewrite Esb, Hfin1. reflexivity.
     + right. destruct (optN_eqb last (stream (rsp r))) eqn:Heq.
       * specialize (SAME eq_refl). subst p1.
-        assert (Er : r1 = r) by (subst r1; destruct r as [p0 wr lk]; cbn [rsp rwriteable rlock] in *; subst wr; reflexivity).
+        assert (Er : r1 = r) by (subst r1; destruct r as [p0 wr lk]; cbn [rsp rwriteable rlock raborted] in *; subst wr; reflexivity).
         rewrite Er in EA. rewrite await_input_none_buffered in EA; [|rewrite io_fuel_remaining; lia|rewrite Esb; discriminate].
         injection EA as _ <- <-. split; [exact Ewr|]. split; [symmetry; apply optN_eqb_eq; exact Heq|].
         split; [rewrite Esb; discriminate|]. split; reflexivity.
@@ -1345,7 +1345,7 @@ Proof.
   change (match rev (role_input_streams (r_role (sreq (rsp r)))) with x :: _ => Some x | [] => None end)
     with (last_opt (r_role (sreq (rsp r)))).
   rewrite <- Hs. rewrite (set_stream_same _ (pinv_stream_ok _ Hinv)).
-  assert (Er : mkR (rsp r) false (rlock r) = r) by (destruct r as [p0 wr lk]; cbn [rsp rwriteable rlock] in *; subst wr; reflexivity).
+  assert (Er : mkR (rsp r) false (rlock r) (raborted r) = r) by (destruct r as [p0 wr lk]; cbn [rsp rwriteable rlock raborted] in *; subst wr; reflexivity).
   rewrite Er. rewrite await_input_none_buffered; [reflexivity|rewrite io_fuel_remaining; lia|exact Hsb].
 Qed.
 
@@ -1372,7 +1372,7 @@ Qed.
 
 (* Parser::consume_stream as an operation of the handler (after fill_buf) *)
 Lemma consume_acct r w c wr lk : pinv (rsp r) ->
-  acct [] r w (take (N.min c (len (stream_buffer (rsp r)))) (stream_buffer (rsp r))) (mkR (consume_stream (rsp r) c) wr lk) w.
+  acct [] r w (take (N.min c (len (stream_buffer (rsp r)))) (stream_buffer (rsp r))) (mkR (consume_stream (rsp r) c) wr lk false) w.
 Proof.
   intros [HRI HI]. pose proof (consume_stream_abs (rsp r) c HRI) as CA.
   destruct (consume_stream_law maxc (abs (rsp r)) c (remaining w)) as (CK & CR & CF).
@@ -1617,7 +1617,7 @@ Proof. destruct a; cbn [optN_eqb]; [apply N.eqb_refl|reflexivity]. Qed.
 
 (* set_stream in the trace law *)
 Lemma switch_law a0 u0 r w s p1 : pinv (rsp r) -> later_kept a0 u0 r w -> set_stream (rsp r) s = SetOk p1 ->
-  (forall wr lk, later_kept a0 u0 (mkR p1 wr lk) w) /\
+  (forall wr lk, later_kept a0 u0 (mkR p1 wr lk false) w) /\
   (forall t T', tlaw a0 u0 s (K (abs p1) (remaining w)) t T' ->
       if optN_eqb s (stream (rsp r)) then tlaw a0 u0 (stream (rsp r)) (K (abs (rsp r)) (remaining w)) t T'
       else tlaw a0 u0 s (F s a0 u0) t T').
@@ -1645,8 +1645,8 @@ Proof.
   intros Hinv Hrem E. unfold do_writeable in E. destruct (rwriteable r); [discriminate E|].
   destruct (set_stream (rsp r) _) as [p1| |] eqn:ES; try (injection E as _ <-; reflexivity).
   destruct (set_stream_step _ _ _ Hinv ES) as (I1 & _).
-  pose proof (await_input_reads (io_fuel w 0) None (mkR p1 false (rlock r)) w I1 Hrem) as AI.
-  destruct (await_input maxc (io_fuel w 0) None (mkR p1 false (rlock r)) w) as [[[x|k] r2] w2|o2 w2]; try discriminate E.
+  pose proof (await_input_reads (io_fuel w 0) None (mkR p1 false (rlock r) (raborted r)) w I1 Hrem) as AI.
+  destruct (await_input maxc (io_fuel w 0) None (mkR p1 false (rlock r) (raborted r)) w) as [[[x|k] r2] w2|o2 w2]; try discriminate E.
   injection E as _ <-. cbn [ai_post] in AI. destruct AI as (r2 & A & _). apply (ac_ev _ _ _ _ _ _ A).
 Qed.
 
@@ -1700,7 +1700,7 @@ Proof.
       pose proof (consume_acct r1 w1 cc (rwriteable r1) (rlock r1) (ac_inv _ _ _ _ _ _ A)) as A2. fold seen in A2.
       replace (N.min cc (len seen)) with cc in A2 by (subst cc; lia).
       pose proof (acct_trans0 _ _ _ _ _ _ _ _ A A2) as A3. cbn [app] in A3.
-      apply (hr_post_cons _ rest a0 u0 r w (OFill cc seen) (mkR (consume_stream (rsp r1) cc) (rwriteable r1) (rlock r1))
+      apply (hr_post_cons _ rest a0 u0 r w (OFill cc seen) (mkR (consume_stream (rsp r1) cc) (rwriteable r1) (rlock r1) (raborted r1))
                (w_ev (w_ev w1 [3; 1; cc]) seen)); [intros t Ht; constructor; exact Ht| | | |].
       * cbn [obs_events w_ev events app]. rewrite (ac_ev _ _ _ _ _ _ A). reflexivity.
       * apply (ac_req _ _ _ _ _ _ A3).
@@ -1724,7 +1724,7 @@ Proof.
       try (exists []; split; [constructor|]; cbn [rev flat_map app tlaw]; split; [reflexivity|eexists; reflexivity]).
     destruct (set_stream_step _ _ _ Hinv ES) as (I1 & Q1 & S1 & _).
     destruct (switch_law a0 u0 r w (Some s) p1 Hinv J ES) as [J1 SW].
-    apply (hr_post_cons _ rest a0 u0 r w (OSet (stream_code (stream p1))) (mkR p1 (rwriteable r) (rlock r))
+    apply (hr_post_cons _ rest a0 u0 r w (OSet (stream_code (stream p1))) (mkR p1 (rwriteable r) (rlock r) (raborted r))
              (w_ev w [4; stream_code (stream p1)])); [intros t Ht; constructor; exact Ht| | | |].
     + reflexivity.
     + exact Q1.
@@ -1968,7 +1968,7 @@ Proof.
     destruct (await_read (io_fuel w 0) false (sinput_space (compress p1)) w) as [[b|k] w1|o w1]; [| discriminate E1|].
     - destruct AR as (A1 & A2 & A3 & A4 & _). destruct b as [|x b]; [discriminate E1|].
       rewrite A3 in Hrem. apply bytes_ok_app in Hrem.
-      destruct (IH (x :: b) (mkR (compress p1) (rwriteable r) (rlock r)) w1 w' I2 (proj1 Hrem) A4 (proj2 Hrem) E1)
+      destruct (IH (x :: b) (mkR (compress p1) (rwriteable r) (rlock r) (raborted r)) w1 w' I2 (proj1 Hrem) A4 (proj2 Hrem) E1)
         as (G & L & p' & P1 & P2 & P3 & P4).
       split; [exact G|]. split; [rewrite L; exact A1|]. exists p'. split; [exact P1|]. split; [exact P2|].
       cbn [rsp] in P3, P4. split; [rewrite P3; apply SO|]. rewrite A3, HR. exact P4.
@@ -2119,7 +2119,7 @@ Qed.
    copied into the caller's buffer; they are gone (K drops from "abc" to nothing, nothing was delivered).
    [poll_input_reads] accounts for them as [dl] with len dl <= c. *)
 Example ex_lost_bytes :
-  let r := mkR ex_resp true false in let w := ex_w ex_stdin_abort in
+  let r := mkR ex_resp true false false in let w := ex_w ex_stdin_abort in
   match poll_input 10 50 (Some 10) r w with
   | (PReady (inr k), r', w') => k = EK_Aborted /\ K (abs (rsp r)) (remaining w) = [97; 98; 99] /\
                                 K (abs (rsp r')) (remaining w') = [] /\ remaining w' = []
@@ -2132,7 +2132,7 @@ Proof. vm_compute. repeat split; reflexivity. Qed.
    buffer, answers Ok(0), and is taken for end of file although 28 client bytes are still to come *)
 Definition ex_big_pair : bytes := [1;9;0;0;0;92;0;0] ++ [90;0] ++ repeatN 65 90.
 Example ex_full_buffer_eof :
-  match poll_input 10 200 (Some 10) (mkR ex_resp true false) (ex_w ex_big_pair) with
+  match poll_input 10 200 (Some 10) (mkR ex_resp true false false) (ex_w ex_big_pair) with
   | (PReady (inr k), r', w') => k = EK_UnexpectedEof /\ sinput_space (rsp r') = 0 /\ len (remaining w') = 28 /\
                                 payload_rem (rsp r') = 92
   | _ => False
@@ -2144,7 +2144,7 @@ Proof. vm_compute. repeat split; reflexivity. Qed.
    in the stream buffer and the gate closed; then writeable() returns Ok(()) and is_writeable() is still false
    (in the crate: a following output_stream() panics on its assertion).  See [do_writeable_gate], [do_writeable_stale]. *)
 Example ex_writeable_stale :
-  match run_handler 10 10 [4; 8; 3; 0] (mkR ex_filt false false) (ex_w ex_data_abort) with
+  match run_handler 10 10 [4; 8; 3; 0] (mkR ex_filt false false false) (ex_w ex_data_abort) with
   | Ok (_, r1) w1 =>
       rwriteable r1 = false /\ stream (rsp r1) = last_opt ROLE_Filter /\ stream_buffer (rsp r1) = [120; 121] /\
       events w1 = [[8]; []; [3; 0; EK_Aborted]; [4; 8]] /\
@@ -2159,7 +2159,7 @@ Proof. vm_compute. repeat split; reflexivity. Qed.
 (* a run in which the statements are about something: two reads of 2 bytes, the rest by read_to_end (the reply to
    GetValues is written on the way), then Data selected and read: each epoch delivers exactly its stream *)
 Example ex_epochs :
-  match run_handler 10 20 [1; 2; 1; 2; 2; 4; 8; 5; 2] (mkR ex_filt false false) (ex_w ex_two_streams) with
+  match run_handler 10 20 [1; 2; 1; 2; 2; 4; 8; 5; 2] (mkR ex_filt false false false) (ex_w ex_two_streams) with
   | Ok (_, r') w' =>
       rev (events w') = [[1; 1; 2]; [97; 98]; [1; 1; 2]; [99; 100]; [2; 0]; [101]; [4; 8]; [5; 0; 1; 8]; [2; 0]; [120; 121]; [8]] /\
       rwriteable r' = true /\ len (wlog w') = 32 /\
@@ -2170,7 +2170,7 @@ Proof. vm_compute. repeat split; reflexivity. Qed.
 
 (* end of file persists, and a zero-length read says nothing *)
 Example ex_eof :
-  match run_handler 10 20 [2; 1; 4; 1; 0; 1; 7] (mkR ex_resp true false) (ex_w ex_two_streams) with
+  match run_handler 10 20 [2; 1; 4; 1; 0; 1; 7] (mkR ex_resp true false false) (ex_w ex_two_streams) with
   | Ok (_, r') w' =>
       rev (events w') = [[2; 0]; [97; 98; 99; 100; 101]; [1; 1; 0]; []; [1; 1; 0]; []; [1; 1; 0]; []; [8]] /\
       at_term (abs (rsp r')) = true
